@@ -4,6 +4,7 @@
 -/
 import PasfmtModel.Proofs.CursorProps
 import PasfmtModel.Proofs.CursorProps2
+import PasfmtModel.Proofs.CursorBoundary
 import PasfmtModel.Model.Pipeline
 
 namespace Pasfmt.C15
@@ -322,5 +323,257 @@ example :
     { tok := { ws := [32], content := [123, 97, 10, 98, 125], kind := .tComment .cMultilineBlock },
       fmt := { ignored := false, nl := 0, ind := 0, cont := 0, sp := 1 } }
     rfl rfl rfl rfl (by decide) (by decide) (by decide) (by decide) (by decide)
+
+/-! ## Third batch: "on a character boundary"
+
+  `isCharBoundary s i` is Rust's `str::is_char_boundary`: `i = 0`, or `i = |s|`, or byte `i` of `s`
+  is not a UTF-8 continuation byte (so an offset behind the end of `s` is never a boundary, and
+  "on a character boundary" contains "within the output").
+  Hypotheses shared by the theorems below:
+  * `AsciiSettings S`: the line ending and the two indentation strings are ASCII — true of the
+    settings of every configuration (`settings_ascii`);
+  * `PiecesValid ft`: the text of every token is well-formed UTF-8, and so is the verbatim leading
+    whitespace of every ignored token (for scanned tokens: `C13.lex_char_boundaries`);
+  * `noSafetyNetGo false ft = true`: no safety-net newline was inserted, as in
+    `offset_for_token_true` (without it the statement is false: `cursor_boundary_fails_safety_net`).
+
+  Sample with a non-ASCII character: input `é ;⏎`, output `é;⏎`. -/
+
+def exRawU : List RawTok :=
+  [ { ws := [], content := [195, 169], kind := .rIdentifier },
+    { ws := [32], content := [59], kind := .rOp .oSemicolon },
+    { ws := [10], content := [], kind := .rEof } ]
+
+def exFtU : FT :=
+  [ { tok := { ws := [], content := [195, 169], kind := .tIdentifier },
+      fmt := { ignored := false, nl := 0, ind := 0, cont := 0, sp := 0 } },
+    { tok := { ws := [32], content := [59], kind := .tOp .oSemicolon },
+      fmt := { ignored := false, nl := 0, ind := 0, cont := 0, sp := 0 } },
+    { tok := { ws := [10], content := [], kind := .tEof },
+      fmt := { ignored := false, nl := 1, ind := 0, cont := 0, sp := 0 } } ]
+
+/-- the line ending (`\n` or `\r\n`) and the indentation strings (tabs or spaces) of every
+    configuration are ASCII -/
+theorem settings_ascii (cfg : Config) : AsciiSettings cfg.settings := config_settings_ascii cfg
+
+/-- the sample settings are those of the default configuration -/
+theorem exS_ascii : AsciiSettings exS := by
+  have : exS = Config.default.settings := by decide
+  rw [this]; exact settings_ascii _
+
+/-- Everything `reconstruct` writes in front of a non-ignored token — line breaks, indentation,
+    continuation indentation, spaces, the safety-net line break — is ASCII (every byte below 0x80),
+    with the settings of any configuration. -/
+theorem gap_is_ascii (cfg : Config) (t : FTok) (mustBreak : Bool) (hi : t.fmt.ignored = false) :
+    ∀ b ∈ gapOf cfg.settings t mustBreak, b < 0x80 :=
+  gapOf_ascii cfg.settings t mustBreak (settings_ascii cfg) hi
+
+/-- Hence, in a well-formed text `A ++ g ++ R` where `g` is ASCII (a gap of a non-ignored token),
+    every offset inside `g` or at its end is a character boundary, and so is its start as soon as
+    `|A|` is one. -/
+theorem gap_offsets_on_boundary (s A g R : Bytes) (hs : s = A ++ g ++ R) (hv : ValidUtf8 s)
+    (hg : ∀ b ∈ g, b < 0x80) (hA : isCharBoundary s A.length = true) (j : Nat) (hj : j ≤ g.length) :
+    isCharBoundary s (A.length + j) = true :=
+  ascii_run_offsets_boundary s A g R hs hv hg hA j hj
+
+/-- The output is well-formed UTF-8 when every token text (and the verbatim whitespace of every
+    ignored token) is: it is the chain gap, text, gap, text, … of well-formed pieces. -/
+theorem output_valid_utf8 (S : Settings) (ft : FT) (hS : AsciiSettings S) (hv : PiecesValid ft) :
+    ValidUtf8 (reconstruct S ft) :=
+  reconGo_valid S false ft hS hv
+
+/-- The text of every token starts (`o = 0`) and ends (`o = |text|`) on a character boundary of the
+    output, and every character boundary `o` of the token's own text is one of the output, at
+    `offset_for_token(k) + o`. -/
+theorem token_offsets_on_boundary (S : Settings) (ft : FT) (k o : Nat) (t : FTok)
+    (hk : ft[k]? = some t) (ho : o ≤ t.tok.content.length)
+    (hb : isCharBoundary t.tok.content o = true)
+    (hS : AsciiSettings S) (hv : PiecesValid ft) (hsn : noSafetyNetGo false ft = true) :
+    isCharBoundary (reconstruct S ft) (offsetForToken S ft k + o) = true :=
+  token_offsets_boundary S ft k o t hk ho hb hS hv hsn
+
+/-- A cursor that was in the whitespace in front of a *non-ignored* token (internal form
+    `.whitespace col newlinesAfter`, any values) is reported on a character boundary of the output:
+    it lands inside or at an end of the new gap in front of that token
+    (`cursor_whitespace_in_gap`), and the gap is ASCII.
+    Excluded: ignored tokens (false there: `cursor_boundary_fails_ignored_wide_blank`, and out of
+    bounds in `cursor_in_bounds_fails_ignored_crlf`), inserted safety-net newlines, outputs in
+    which the token starts at or beyond 4 GiB; only `relocate = some r` is covered (`none` =
+    arithmetic underflow, `cursor_total_fails_F3`). -/
+theorem cursor_in_gap_on_boundary (S : Settings) (ft : FT) (idx c n : Nat) (t : FTok) (r : Nat)
+    (hk : ft[idx]? = some t) (hi : t.fmt.ignored = false)
+    (hS : AsciiSettings S) (hv : PiecesValid ft) (hsn : noSafetyNetGo false ft = true)
+    (hsmall : offsetForToken S ft idx < 4294967296)
+    (h : relocate S ft { tokIdx := idx, pos := .whitespace c n } = some r) :
+    isCharBoundary (reconstruct S ft) r = true :=
+  relocate_whitespace_boundary S ft idx c n t r hk hi hS hv hsn hsmall h
+
+/-- the cursor in the space of `é ;⏎` is reported at 2 in `é;⏎`, a character boundary -/
+example : relocate exS exFtU { tokIdx := 1, pos := .whitespace 2 0 } = some 2 ∧
+    isCharBoundary (reconstruct exS exFtU) 2 = true := by
+  have h : relocate exS exFtU { tokIdx := 1, pos := .whitespace 2 0 } = some 2 := by decide +kernel
+  exact ⟨h, cursor_in_gap_on_boundary exS exFtU 1 2 0 _ 2 rfl rfl exS_ascii
+    (piecesValid_of_b _ (by decide +kernel)) (by decide) (by decide) h⟩
+
+/-- A cursor attached to token `k` at content offset `o` (`pos = .content o`, single-line token),
+    where `o` is a character boundary of the token's *current* text, is reported at
+    `offset_for_token(k) + o`, which is a character boundary of the output.
+    Excluded: inserted safety-net newlines, outputs in which the token ends at or beyond 4 GiB, and
+    offsets that are not a boundary of the current text — which happens when the text of the token
+    was changed (`cursor_boundary_fails_changed_comment_F16`). -/
+theorem cursor_in_token_on_boundary (S : Settings) (ft : FT) (k o : Nat) (t : FTok)
+    (hk : ft[k]? = some t) (ho : o ≤ t.tok.content.length)
+    (hb : isCharBoundary t.tok.content o = true)
+    (hS : AsciiSettings S) (hv : PiecesValid ft) (hsn : noSafetyNetGo false ft = true)
+    (hsmall : offsetForToken S ft k + t.tok.content.length < 4294967296) :
+    relocate S ft { tokIdx := k, pos := .content o } = some (offsetForToken S ft k + o) ∧
+      isCharBoundary (reconstruct S ft) (offsetForToken S ft k + o) = true :=
+  ⟨cursor_same_token S ft k o t hk ho hsmall, token_offsets_boundary S ft k o t hk ho hb hS hv hsn⟩
+
+/-- an input cursor on a character boundary of the input text that is `o` bytes into the text of
+    token `k` is on a character boundary of that token's text -/
+theorem input_cursor_boundary_in_token (raw : List RawTok) (k o : Nat) (t : RawTok)
+    (hk : raw[k]? = some t) (ho : o ≤ t.content.length)
+    (hb : isCharBoundary (raw.flatMap (fun t => t.ws ++ t.content))
+      (((raw.take k).map RawTok.strLen).sum + t.ws.length + o) = true) :
+    isCharBoundary t.content o = true :=
+  input_boundary_in_token raw k o t hk ho hb
+
+/-- "On a character boundary", end to end, single-line tokens.  The input is the concatenation of
+    the scanned tokens (`C13.lex_lossless`).  A cursor on a character boundary of the input, `o`
+    bytes into the text of input token `k`, when token `k` of the final token list still has the
+    same text, is reported at `offset_for_token(k) + o`, on a character boundary of the output.
+    Excluded (as in `cursor_in_unchanged_token_true`): multi-line comments/strings (next theorem),
+    the sticking case `o = 0`, inserted safety-net newlines, outputs of 4 GiB or more. -/
+theorem cursor_on_boundary_unchanged_token (S : Settings) (raw : List RawTok) (ft : FT) (k o : Nat)
+    (t : RawTok) (t' : FTok)
+    (hk : raw[k]? = some t) (hk' : ft[k]? = some t') (hsame : t'.tok.content = t.content)
+    (hm : isMultilineRawKind t.kind = false) (ho : o ≤ t.content.length)
+    (hfirst : 0 < o ∨ 0 < t.ws.length ∨ k = 0)
+    (hS : AsciiSettings S) (hv : PiecesValid ft)
+    (hsn : noSafetyNetGo false ft = true)
+    (hsmall : (reconstruct S ft).length < 4294967296)
+    (hb : isCharBoundary (raw.flatMap (fun t => t.ws ++ t.content))
+      (((raw.take k).map RawTok.strLen).sum + t.ws.length + o) = true) :
+    trackCursors S raw ft [((raw.take k).map RawTok.strLen).sum + t.ws.length + o]
+        = [some (offsetForToken S ft k + o)] ∧
+      isCharBoundary (reconstruct S ft) (offsetForToken S ft k + o) = true := by
+  have hle := offset_add_content_le S ft false k t' hk' hsn
+  have hbo := input_boundary_in_token raw k o t hk ho hb
+  refine ⟨cursor_in_unchanged_token S raw ft k o t t' hk hk' hsame hm ho hfirst
+      (by unfold reconstruct at hsmall; rw [← hsame]; omega), ?_⟩
+  exact token_offsets_boundary S ft k o t' hk' (by rw [hsame]; exact ho) (by rw [hsame]; exact hbo)
+    hS hv hsn
+
+/-- `é ;⏎` → `é;⏎`: the cursor behind `é` (offset 2, a character boundary of the input) stays at 2,
+    a character boundary of the output -/
+example : trackCursors exS exRawU exFtU [2] = [some 2] ∧
+    isCharBoundary (reconstruct exS exFtU) 2 = true :=
+  cursor_on_boundary_unchanged_token exS exRawU exFtU 0 2
+    { ws := [], content := [195, 169], kind := .rIdentifier }
+    { tok := { ws := [], content := [195, 169], kind := .tIdentifier },
+      fmt := { ignored := false, nl := 0, ind := 0, cont := 0, sp := 0 } }
+    rfl rfl rfl rfl (by decide) (by decide) exS_ascii (piecesValid_of_b _ (by decide +kernel))
+    (by decide) (by decide) (by decide +kernel)
+
+/-- The same for multi-line comments and multi-line strings (position conditions as in
+    `cursor_in_unchanged_multiline_token`). -/
+theorem cursor_on_boundary_unchanged_multiline_token (S : Settings) (raw : List RawTok) (ft : FT)
+    (k o : Nat) (t : RawTok) (t' : FTok)
+    (hk : raw[k]? = some t) (hk' : ft[k]? = some t') (hsame : t'.tok.content = t.content)
+    (hm : isMultilineRawKind t.kind = true) (ho : o ≤ t.content.length)
+    (hfirst : 0 < o ∨ 0 < t.ws.length ∨ k = 0)
+    (hcol : firstLen (t.content.drop o) < 65536) (hnl : countByte 0x0A (t.content.drop o) < 65536)
+    (hS : AsciiSettings S) (hv : PiecesValid ft)
+    (hsn : noSafetyNetGo false ft = true)
+    (hsmall : (reconstruct S ft).length < 4294967296)
+    (hb : isCharBoundary (raw.flatMap (fun t => t.ws ++ t.content))
+      (((raw.take k).map RawTok.strLen).sum + t.ws.length + o) = true) :
+    trackCursors S raw ft [((raw.take k).map RawTok.strLen).sum + t.ws.length + o]
+        = [some (offsetForToken S ft k + o)] ∧
+      isCharBoundary (reconstruct S ft) (offsetForToken S ft k + o) = true := by
+  have hle := offset_add_content_le S ft false k t' hk' hsn
+  have hbo := input_boundary_in_token raw k o t hk ho hb
+  refine ⟨cursor_in_unchanged_multiline_token S raw ft k o t t' hk hk' hsame hm ho hfirst hcol hnl
+      (by unfold reconstruct at hsmall; rw [← hsame]; omega), ?_⟩
+  exact token_offsets_boundary S ft k o t' hk' (by rw [hsame]; exact ho) (by rw [hsame]; exact hbo)
+    hS hv hsn
+
+/-- Cursors beyond the end of the input are reported at the end of the output
+    (`cursor_past_end`), which is a character boundary. -/
+theorem cursor_past_end_on_boundary (S : Settings) (ft : FT) (last : FTok)
+    (hl : ft.getLast? = some last) (hc : last.tok.content = [])
+    (hsn : noSafetyNetGo false ft = true) (hsmall : (reconstruct S ft).length < 4294967296) :
+    relocate S ft { tokIdx := ft.length, pos := .content 0 } = some (reconstruct S ft).length ∧
+      isCharBoundary (reconstruct S ft) (reconstruct S ft).length = true :=
+  ⟨cursor_past_end S ft last hl hc hsn hsmall, isCharBoundary_length _⟩
+
+/-- Known finding F16: a cursor in a line comment whose text *changes* can be reported inside a
+    multi-byte character.  Input `//é⏎` (well-formed; the comment is `2F 2F C3 A9`), the line
+    comment rule inserts a space: output `// é⏎` = `2F 2F 20 C3 A9 0A` (this token list is what
+    the closed model `formatFull` computes for this input).  The cursor at input offset 4 (end of
+    the comment, a character boundary of the input) is content offset 4 of token 0 and is reported
+    at 4, between `C3` and `A9`.  `token_offsets_on_boundary` does not apply: 4 is not a boundary of
+    the new text. -/
+theorem cursor_boundary_fails_changed_comment_F16 :
+    let S : Settings := { nlStr := [10], indStr := [32, 32], contStr := [32, 32, 32, 32] }
+    let raw : List RawTok :=
+      [ { ws := [], content := [47, 47, 195, 169], kind := .rComment .cIndividualLine },
+        { ws := [10], content := [], kind := .rEof } ]
+    let ft : FT :=
+      [ { tok := { ws := [], content := [47, 47, 32, 195, 169], kind := .tComment .cIndividualLine },
+          fmt := { ignored := false, nl := 0, ind := 0, cont := 0, sp := 0 } },
+        { tok := { ws := [10], content := [], kind := .tEof },
+          fmt := { ignored := false, nl := 1, ind := 0, cont := 0, sp := 0 } } ]
+    noSafetyNetGo false ft = true ∧ piecesValidB ft = true ∧
+      validUtf8 (raw.flatMap (fun t => t.ws ++ t.content)) = true ∧
+      isCharBoundary (raw.flatMap (fun t => t.ws ++ t.content)) 4 = true ∧
+      reconstruct S ft = [47, 47, 32, 195, 169, 10] ∧
+      trackCursors S raw ft [4] = [some 4] ∧
+      isCharBoundary (reconstruct S ft) 4 = false := by
+  decide +kernel
+
+/-- The theorems above are false without `noSafetyNetGo` (known finding F19: `offset_for_token`
+    does not count the safety-net newline).  Token list `//x`, `é` with no line break requested
+    between them: the reconstructor inserts one, the output is `//x⏎é` = `2F 2F 78 0A C3 A9`; the
+    cursor behind `é` (content offset 2 of token 1) is reported at 5, between `C3` and `A9`. -/
+theorem cursor_boundary_fails_safety_net :
+    let S : Settings := { nlStr := [10], indStr := [32, 32], contStr := [32, 32, 32, 32] }
+    let ft : FT :=
+      [ { tok := { ws := [], content := [47, 47, 120], kind := .tComment .cIndividualLine },
+          fmt := { ignored := false, nl := 0, ind := 0, cont := 0, sp := 0 } },
+        { tok := { ws := [10], content := [195, 169], kind := .tIdentifier },
+          fmt := { ignored := false, nl := 0, ind := 0, cont := 0, sp := 0 } } ]
+    noSafetyNetGo false ft = false ∧ piecesValidB ft = true ∧
+      reconstruct S ft = [47, 47, 120, 10, 195, 169] ∧
+      relocate S ft { tokIdx := 1, pos := .content 2 } = some 5 ∧
+      isCharBoundary (reconstruct S ft) 5 = false := by
+  decide +kernel
+
+/-- `cursor_in_gap_on_boundary` is false for ignored tokens whose verbatim whitespace is not
+    ASCII: the column arithmetic counts bytes.  Input `a  b□□c` with `□` = U+3000 (`E3 80 80`),
+    `c` ignored, `a  b` reformatted to `a b`.  The cursor between the two `□` (input offset 7, a
+    character boundary) has byte column 7; the output is `a b□□c`, where byte column 7 is inside
+    the second `□`. -/
+theorem cursor_boundary_fails_ignored_wide_blank :
+    let S : Settings := { nlStr := [10], indStr := [32, 32], contStr := [32, 32, 32, 32] }
+    let raw : List RawTok :=
+      [ { ws := [], content := [97], kind := .rIdentifier },
+        { ws := [32, 32], content := [98], kind := .rIdentifier },
+        { ws := [227, 128, 128, 227, 128, 128], content := [99], kind := .rIdentifier } ]
+    let ft : FT :=
+      [ { tok := { ws := [], content := [97], kind := .tIdentifier },
+          fmt := { ignored := false, nl := 0, ind := 0, cont := 0, sp := 0 } },
+        { tok := { ws := [32, 32], content := [98], kind := .tIdentifier },
+          fmt := { ignored := false, nl := 0, ind := 0, cont := 0, sp := 1 } },
+        { tok := { ws := [227, 128, 128, 227, 128, 128], content := [99], kind := .tIdentifier },
+          fmt := FmtData.ofWs [227, 128, 128, 227, 128, 128] true } ]
+    noSafetyNetGo false ft = true ∧ piecesValidB ft = true ∧
+      isCharBoundary (raw.flatMap (fun t => t.ws ++ t.content)) 7 = true ∧
+      processCursor raw 7 = { tokIdx := 2, pos := .whitespace 7 0 } ∧
+      reconstruct S ft = [97, 32, 98, 227, 128, 128, 227, 128, 128, 99] ∧
+      trackCursors S raw ft [7] = [some 7] ∧
+      isCharBoundary (reconstruct S ft) 7 = false := by
+  decide +kernel
 
 end Pasfmt.C15
